@@ -629,6 +629,34 @@ def check_mixins(pane, res):
         ('C(A[T], N)', lambda: new_class('C5', (A[T], N), {'__annotations__': {}}), ['T'], {'x': T, 'n': str}),
         ('C(A[T], B2[U])', lambda: new_class('C6', (A[T], B2[U]), {'__annotations__': {}}), ['T', 'U'], {'x': T, 'y': U}),
     ]
+    # diamonds: the effective field is the one of the most derived declaration in MRO order
+    Base = type('DBase', (pane.PaneBase,), {'__annotations__': {'a': int, 'b': int}, 'a': 1, 'b': 2, '__module__': 'mc.generated'})
+    Left = type('DLeft', (Base,), {'__annotations__': {'a': str, 'l': int}, 'a': 'left', 'l': 3, '__module__': 'mc.generated'})
+    Right = type('DRight', (Base,), {'__annotations__': {'r': int}, 'r': 4, '__module__': 'mc.generated'})
+    Right2 = type('DRight2', (Base,), {'__annotations__': {'b': float, 'r': int}, 'b': 2.5, 'r': 4, '__module__': 'mc.generated'})
+    for label, bases, want in [
+        ('D(Right, Left): Left re-declares a', (Right, Left), "(a: str = 'left', b: int = 2, l: int = 3, r: int = 4, d: int = 5) -> None"),
+        ('D(Left, Right)', (Left, Right), "(a: str = 'left', b: int = 2, r: int = 4, l: int = 3, d: int = 5) -> None"),
+        ('D(Right2, Left): each side re-declares one field', (Right2, Left), "(a: str = 'left', b: float = 2.5, l: int = 3, r: int = 4, d: int = 5) -> None"),
+        ('D(Left, Right2)', (Left, Right2), "(a: str = 'left', b: float = 2.5, r: int = 4, l: int = 3, d: int = 5) -> None"),
+    ]:
+        res['states'] += 1
+        res['evals'] += 1
+        res['validated'] += 1
+        res['nontrivial'].add(f"diamond|{label}")
+        try:
+            D = type('D', bases, {'__annotations__': {'d': int}, 'd': 5, '__module__': 'mc.generated'})
+            got = str(inspect.signature(D))
+            # (no standard-library mirror here: dataclasses copies every inherited field into each base, so in a diamond the stale
+            #  copy held by the base that did NOT re-declare the field wins - the statement asks for MRO order with in-place override)
+            inst = D.from_data({})
+            vals = (inst.a, inst.b)
+        except Exception as e:  # noqa
+            core.add_violation(res, {'kind': 'diamond_creation', 'case': label}, f"diamond {label}: raised {type(e).__name__}: {core.sstr(e, 100)}", {'mixin': label}, 3)
+            continue
+        if got != want or vals != ('left', 2 if 'Right2' not in label else 2.5):
+            core.add_violation(res, {'kind': 'diamond_fields', 'case': label},
+                               f"diamond {label}: signature {got} with defaults {vals}; expected {want}", {'mixin': label}, 3)
     for label, mk, params, fields in cases:
         res['states'] += 1
         res['evals'] += 1
@@ -646,6 +674,25 @@ def check_mixins(pane, res):
         if set(got) != set(fields) or any(type_struct(got[n]) != type_struct(fields[n]) for n in fields) or sorted(gp) != sorted(params):
             core.add_violation(res, {'kind': 'mixin_fields', 'case': label},
                                f"two-base shape {label}: fields {got} with parameters {gp}; expected {fields} with parameters {params}", cell, 3)
+
+
+_MIRRORS: t.Dict[str, t.Any] = {}
+
+
+def _mirror(cls):
+    """Standard-library dataclass twin of one of the diamond fixture classes."""
+    name = cls.__name__
+    if name not in _MIRRORS:
+        bases = tuple(_mirror(b) for b in cls.__bases__ if b.__name__.startswith('D'))
+        ns = {'__annotations__': dict(cls.__dict__.get('__annotations__', {}))}
+        for k in ns['__annotations__']:
+            if k in cls.__dict__:
+                ns[k] = cls.__dict__[k]
+            else:
+                f = next(f for f in cls.__pane_info__.fields if f.name == k)
+                ns[k] = f.default
+        _MIRRORS[name] = dataclasses.dataclass(type(name, bases, ns))
+    return _MIRRORS[name]
 
 
 def plan(tier, seed):
